@@ -21,6 +21,7 @@ SOURCES = [
     'a\tb\nc',
     '<i>&lt;\n>"\n',
     'x' * 300 + '\nyz\n',
+    'a \\& b\n\\dev c\n',
 ]
 LENGTHS = [0, 1, 2, 4, 7]
 CONTEXTS = [0, 1, 2, -1]
